@@ -1,7 +1,7 @@
 SPECIFICATION Spec
 CONSTANTS
   Jids = {"c1"}
-  MaxVer = 1
+  Items <- ItemsOne
   Ress = {"r1"}
   Froms = {"absent", "ownFull", "stranger"}
   ConnKinds = {"plain", "smr", "resumed"}
